@@ -52,7 +52,12 @@ impl TimerState {
 
     pub(super) fn init(&mut self, cx: &mut Context<'_>) {
         if let TimerState::Active { timer } = self {
-            let _ = timer.as_mut().poll(cx);
+            // deadlines are computed from the date service's cached clock and can already have
+            // passed; a `Sleep` that is ready registers no waker, so ask for another poll in which
+            // the dispatcher handles the expiry instead of waiting for an unrelated wake-up
+            if timer.as_mut().poll(cx).is_ready() {
+                cx.waker().wake_by_ref();
+            }
         }
     }
 }
